@@ -51,7 +51,10 @@ type hEnv struct {
 	// ageMinSize overrides the number of events kept after ageing (default 2)
 	ageMinSize int
 	// litter drops a stale "<store file>.tmp" (file-backed environments only)
-	litter   func() error
+	litter func() error
+	// loadFile loads the store file of a file-backed environment with a
+	// store object of its own
+	loadFile func() (*lungo.Catalog, error)
 	cleanup  func()
 	probeSeq int
 	// store, when set, can be told to fail the next Store call; a step
@@ -132,6 +135,7 @@ func openFile() (*hEnv, error) {
 		h.engine = nil
 		return open()
 	}
+	h.loadFile = func() (*lungo.Catalog, error) { return lungo.NewFileStore(path, 0o644).Load() }
 	h.litter = func() error {
 		junk := make([]byte, 1<<20)
 		for i := range junk {
